@@ -272,6 +272,11 @@ fn main() -> Result<()> {
     println!("EVM network: {evm_network:?}");
 
     let node_socket_addr = SocketAddr::new(opt.ip, opt.port);
+    #[cfg(maidsafe_safe_network_verif)]
+    if env::var_os("ANTNODE_VERIF_DUMP_OPT").is_some() {
+        verif_dump_opt(&opt, &rewards_address, &evm_network, &node_socket_addr);
+        return Ok(());
+    }
     let (root_dir, keypair) = get_root_dir_and_keypair(&opt.root_dir)?;
 
     let (log_output_dest, log_reload_handle, _log_appender_guard) =
@@ -758,4 +763,90 @@ fn start_new_node_process(retain_peer_id: bool, root_dir: PathBuf, port: u16) {
             return;
         }
     };
+}
+
+/// Verification hook H7: print the parsed options and the values derived from them as one JSON
+/// line, so that a service definition written by the node manager can be checked against the
+/// interpretation the node gives to it. Compiled only with `--cfg maidsafe_safe_network_verif`.
+#[cfg(maidsafe_safe_network_verif)]
+fn verif_dump_opt(
+    opt: &Opt,
+    rewards_address: &RewardsAddress,
+    evm_network: &EvmNetwork,
+    node_socket_addr: &SocketAddr,
+) {
+    // JSON string literal (serde_json is not a dependency of the binary)
+    fn q(s: &str) -> String {
+        let mut out = String::from("\"");
+        for c in s.chars() {
+            match c {
+                '"' => out.push_str("\\\""),
+                '\\' => out.push_str("\\\\"),
+                c if (c as u32) < 0x20 => out.push_str(&format!("\\u{:04x}", c as u32)),
+                c => out.push(c),
+            }
+        }
+        out.push('"');
+        out
+    }
+    fn opt_q(s: Option<String>) -> String {
+        s.map(|s| q(&s)).unwrap_or_else(|| "null".to_string())
+    }
+    fn opt_n<T: std::fmt::Display>(n: Option<T>) -> String {
+        n.map(|n| n.to_string()).unwrap_or_else(|| "null".to_string())
+    }
+    fn list(items: Vec<String>) -> String {
+        format!("[{}]", items.iter().map(|i| q(i)).collect::<Vec<_>>().join(","))
+    }
+    let evm = match evm_network {
+        EvmNetwork::Custom(custom) => format!(
+            "{{\"kind\":{},\"rpc_url\":{},\"payment_token_address\":{},\"data_payments_address\":{}}}",
+            q(&evm_network.to_string()),
+            q(&custom.rpc_url_http.to_string()),
+            q(&custom.payment_token_address.to_string()),
+            q(&custom.data_payments_address.to_string()),
+        ),
+        _ => format!("{{\"kind\":{}}}", q(&evm_network.to_string())),
+    };
+    #[cfg(feature = "upnp")]
+    let upnp = opt.upnp.to_string();
+    #[cfg(not(feature = "upnp"))]
+    let upnp = "null".to_string();
+    #[cfg(feature = "open-metrics")]
+    let metrics = format!(
+        "{{\"port\":{},\"enable\":{}}}",
+        opt.metrics_server_port, opt.enable_metrics_server
+    );
+    #[cfg(not(feature = "open-metrics"))]
+    let metrics = "null".to_string();
+    let peers = format!(
+        "{{\"first\":{},\"local\":{},\"addrs\":{},\"network_contacts_url\":{},\"disable_mainnet_contacts\":{},\"ignore_cache\":{},\"bootstrap_cache_dir\":{}}}",
+        opt.peers.first,
+        opt.peers.local,
+        list(opt.peers.addrs.iter().map(|a| a.to_string()).collect()),
+        list(opt.peers.network_contacts_url.clone()),
+        opt.peers.disable_mainnet_contacts,
+        opt.peers.ignore_cache,
+        opt_q(opt.peers.bootstrap_cache_dir.as_ref().map(|p| p.to_string_lossy().to_string())),
+    );
+    let fields = [
+        format!("\"home_network\":{}", opt.home_network),
+        format!("\"upnp\":{upnp}"),
+        format!("\"log_output_dest\":{}", q(&opt.log_output_dest.to_string())),
+        format!("\"log_format\":{}", opt_q(opt.log_format.map(|f| f.as_str().to_string()))),
+        format!("\"max_log_files\":{}", opt_n(opt.max_log_files)),
+        format!("\"max_archived_log_files\":{}", opt_n(opt.max_archived_log_files)),
+        format!("\"network_id\":{}", opt_n(opt.network_id)),
+        format!("\"rewards_address\":{}", q(&rewards_address.to_string())),
+        format!("\"evm_network\":{evm}"),
+        format!("\"root_dir\":{}", opt_q(opt.root_dir.as_ref().map(|p| p.to_string_lossy().to_string()))),
+        format!("\"port\":{}", opt.port),
+        format!("\"ip\":{}", q(&opt.ip.to_string())),
+        format!("\"node_socket_addr\":{}", q(&node_socket_addr.to_string())),
+        format!("\"peers\":{peers}"),
+        format!("\"rpc\":{}", opt_q(opt.rpc.map(|a| a.to_string()))),
+        format!("\"owner\":{}", opt_q(opt.owner.clone())),
+        format!("\"metrics\":{metrics}"),
+    ];
+    println!("ANTNODE_VERIF_OPT {{{}}}", fields.join(","));
 }
